@@ -2,7 +2,7 @@ import SgVerif.C31.Lemmas
 /-
 C31 — Predefined reduction operators compute MPI results.  Property theorems (nothing else in this file).
 
-The operator table (`allRows`: 382 (operator, MPI datatype, C element type, per-element statements) rows) is generated
+The operator table (`allRows`: 376 (operator, MPI datatype, C element type, per-element statements) rows) is generated
 from smpi_op.cpp on every run.  Facts about the *table* are finite and proved by `decide` (labelled "finite table");
 everything about *values* is ∀ widths, ∀ values, ∀ array lengths (Lemmas.lean) and lifted over the table through the
 decidable classification `Row.wellFormed` / `Row.typed`.
@@ -36,17 +36,22 @@ theorem row_facts (r : Row) (hr : r ∈ allRows) (k : OpK) (t : CTy) (hk : opKin
   · rw [hd] at h; cases h
   · exact h
 
-/-- FULL STRENGTH (false on the current code, see `op_elementwise_spec_counterexample`):
-      ∀ row of the table on which MPI defines the operator, ∀ arrays: the loop computes the element-wise MPI result.
-    PROVED: the same, excluding MPI_PROD on the Fortran complex types MPI_COMPLEX8/16/32 (SMPI multiplies the real and
-    the imaginary parts separately).  ∀ rows, ∀ element widths, ∀ values, ∀ array lengths. -/
-theorem op_elementwise_spec_partial (r : Row) (hr : r ∈ allRows) (k : OpK) (t : CTy)
+/-- no predefined datatype is a "(re, im) struct" complex any more (the Fortran complex types are C complex types
+    since props/C31/fix_series/02): the exclusion of `canon_eq_spec` is void for every datatype name -/
+theorem mpiKind_ne_fcomplex (dt : String) : mpiKind dt ≠ .fcomplex := by
+  unfold mpiKind
+  split <;> simp
+
+/-- FULL STRENGTH: ∀ row of the table on which MPI defines the operator, ∀ arrays: the loop computes the element-wise
+    MPI result.  ∀ rows, ∀ element widths, ∀ values, ∀ array lengths.  (Before the fix this was
+    `op_elementwise_spec_partial`, excluding MPI_PROD on MPI_COMPLEX8/16/32: see `op_elementwise_spec_prefix_regression`.) -/
+theorem op_elementwise_spec (r : Row) (hr : r ∈ allRows) (k : OpK) (t : CTy)
     (hk : opKind r.op = some k) (ht : ctyOf r.cty = some t)
     (hdef : specDefined k (mpiKind r.dt) = true)
-    (hx : ¬ (k = .prod ∧ mpiKind r.dt = .fcomplex))
     (a b : List Val) (ha : ∀ v ∈ a, v.hasTy t = true) (hb : ∀ v ∈ b, v.hasTy t = true) (hl : a.length = b.length) :
     applyLoop t r.body a b = Spec.arrays k (mpiKind r.dt) t a b ∧ (Spec.arrays k (mpiKind r.dt) t a b).isSome = true := by
   obtain ⟨hb', hm⟩ := row_facts r hr k t hk ht
+  have hx : ¬ (k = .prod ∧ mpiKind r.dt = .fcomplex) := fun h => mpiKind_ne_fcomplex r.dt h.2
   rw [hb']
   exact applyLoop_eq_spec k (mpiKind r.dt) t _ (fun x y hx' hy' => canon_eq_spec k _ t hdef (hm hdef) hx x y hx' hy') a b ha hb hl
 
@@ -56,14 +61,20 @@ theorem op_elementwise_spec_pointwise (k : OpK) (mk : MKind) (t : CTy) (a b r : 
     r.length = a.length ∧ ∀ i (h1 : i < a.length) (h2 : i < b.length) (h3 : i < r.length),
       Spec.elem k mk t a[i] b[i] = some r[i] := arrays_getElem k mk t a b r h
 
-/-- MPI_PROD on MPI_COMPLEX8 is in the table, passes CHECK_OP, and (1+i)·(1+i) gives 1+i instead of 2i -/
-theorem op_elementwise_spec_counterexample :
-    let r : Row := ⟨"MPI_PROD", "MPI_COMPLEX8", "float_float", canonBody .prod (.pair (.flt .f32) (.flt .f32))⟩
+/-- REGRESSION (the code before props/C31/fix_series/02): MPI_PROD on MPI_COMPLEX8 was the row
+    `("MPI_COMPLEX8", "float_float", PROD_OP_COMPLEX)` of the pair loop, and (1+i)·(1+i) gave 1+i instead of 2i.  That row is
+    no longer in the table; the row that replaced it (`float _Complex`, `PROD_OP`) is reachable and gives 2i. -/
+theorem op_elementwise_spec_prefix_regression :
+    let old : Row := ⟨"MPI_PROD", "MPI_COMPLEX8", "float_float", canonBody .prod (.pair (.flt .f32) (.flt .f32))⟩
     let t : CTy := .pair (.flt .f32) (.flt .f32)
     let z : Val := .pair (.flt 1) (.flt 1)
-    r ∈ allRows ∧ r.reachable = true ∧ ctyOf r.cty = some t ∧ mpiKind r.dt = .fcomplex ∧
-    applyLoop t r.body [z] [z] = some [.pair (.flt 1) (.flt 1)] ∧
-    Spec.arrays .prod .fcomplex t [z] [z] = some [.pair (.flt 0) (.flt 2)] := by
+    ctyOf old.cty = some t ∧
+    applyLoop t old.body [z] [z] = some [.pair (.flt 1) (.flt 1)] ∧
+    Spec.arrays .prod .fcomplex t [z] [z] = some [.pair (.flt 0) (.flt 2)] ∧
+    old ∉ allRows ∧
+    (let new : Row := ⟨"MPI_PROD", "MPI_COMPLEX8", "float _Complex", canonBody .prod (.cplx .f32)⟩
+     new ∈ allRows ∧ new.reachable = true ∧ mpiKind new.dt = .complex ∧
+     applyLoop (.cplx .f32) new.body [.cplx 1 1] [.cplx 1 1] = some [.cplx 0 2]) := by
   decide
 
 /-- MINLOC / MAXLOC rows: every such row of the table, on every well-typed pair of (value, index) pairs, computes
@@ -210,18 +221,20 @@ theorem table_types_have_matching_width : allRows.all (fun r =>
     | some d => (sizeOfC r.cty).isSome && sizeOfC r.cty == sizeOfC d.ctype
     | none => false) = true := by decide
 
-/-- FULL STRENGTH (false on the current code): every predefined datatype whose size MPI fixes has that size.
-    PROVED (finite table): all of them except MPI_INTEGER1 (declared and reduced as `int`: 4 bytes, MPI: 1) and
-    MPI_COMPLEX32 (declared and reduced as two `double`: 16 bytes, MPI: 32). -/
-theorem table_types_have_mpi_width_partial : Gen.datatypes.all (fun d =>
-    d.name == "MPI_INTEGER1" || d.name == "MPI_COMPLEX32" ||
+/-- FULL STRENGTH (finite table): every predefined datatype whose size MPI fixes has that size.  (Before
+    props/C31/fix_series/01 and 03 this was `table_types_have_mpi_width_partial`, excluding MPI_INTEGER1 and MPI_COMPLEX32.) -/
+theorem table_types_have_mpi_width : Gen.datatypes.all (fun d =>
     match mpiFixedSize d.name with
     | some n => sizeOfC d.ctype == some n
     | none => true) = true := by decide
 
-theorem table_types_have_mpi_width_counterexample :
-    (lookupDt "MPI_INTEGER1").bind (fun d => sizeOfC d.ctype) = some 4 ∧ mpiFixedSize "MPI_INTEGER1" = some 1 ∧
-    (lookupDt "MPI_COMPLEX32").bind (fun d => sizeOfC d.ctype) = some 16 ∧ mpiFixedSize "MPI_COMPLEX32" = some 32 := by
+/-- REGRESSION (the declarations before the fixes): MPI_INTEGER1 was declared and reduced as `int` (4 bytes, MPI: 1) and
+    MPI_COMPLEX32 as `double_double` (16 bytes, MPI: 32); the current declarations have the MPI sizes. -/
+theorem table_types_have_mpi_width_prefix_regression :
+    sizeOfC "int" = some 4 ∧ mpiFixedSize "MPI_INTEGER1" = some 1 ∧
+    sizeOfC "double_double" = some 16 ∧ mpiFixedSize "MPI_COMPLEX32" = some 32 ∧
+    (lookupDt "MPI_INTEGER1").bind (fun d => sizeOfC d.ctype) = some 1 ∧
+    (lookupDt "MPI_COMPLEX32").bind (fun d => sizeOfC d.ctype) = some 32 := by
   decide
 
 /-! non-vacuity -/
@@ -231,7 +244,7 @@ example : (allRows.filter (fun r => match opKind r.op with
     | some k => specDefined k (mpiKind r.dt) && r.reachable
     | none => false)).length = 312 := by decide
 
-/-- a concrete instance of `op_elementwise_spec_partial`: MPI_MAX on MPI_SHORT, signed comparison -/
+/-- a concrete instance of `op_elementwise_spec`: MPI_MAX on MPI_SHORT, signed comparison -/
 example : applyLoop (.int 16 true) (canonBody .max (.int 16 true))
     [.int 16 0xFFFF#16, .int 16 5#16] [.int 16 1#16, .int 16 7#16] = some [.int 16 1#16, .int 16 7#16] := by decide
 
